@@ -1,8 +1,284 @@
+//! gmsim — deterministic simulation with fault injection for CrayfishGo/gm-rs.
+//!
+//!   gmsim check <ID> <quick|thorough>     run the check of one property (env VERIF_SEED)
+//!   gmsim replay <file>                   re-execute a replay file step by step
+//!   gmsim selftest                        reference-model self-tests (published vectors)
+//!   gmsim digest <ID> <tier> [--serial]   print the run digest only (determinism proof)
+//!   gmsim journal-run <ID> <tier> <seed> <run> <file>   one run, in-flight schedule journalled
+
+mod gen_common;
+mod gen_sm2enc;
+mod gen_sm2sig;
+mod gen_zuc;
+mod libglue;
+mod objs;
+mod ops_doc;
+mod ops_entry;
+mod ops_sm2;
+mod ops_sm9;
+mod ops_zuc;
+mod prng;
+mod props;
 mod refmodel;
+mod runner;
+mod simrng;
+mod world;
+
+use runner::{Found, Known, Tier};
+use serde_json::{json, Value};
+use std::collections::BTreeMap;
+use std::path::{Path, PathBuf};
+use std::time::Instant;
+
+fn verif_dir() -> PathBuf {
+    // the binary lives in <verif>/sim/target/release/
+    if let Ok(d) = std::env::var("GMSIM_VERIF_DIR") {
+        return PathBuf::from(d);
+    }
+    let exe = std::env::current_exe().unwrap();
+    exe.ancestors().nth(4).map(|p| p.to_path_buf()).unwrap_or_else(|| PathBuf::from("/verif"))
+}
+
+fn seed_from_env() -> u64 {
+    std::env::var("VERIF_SEED").ok().and_then(|s| s.trim().parse::<u64>().ok()).unwrap_or(runner::DEFAULT_SEED)
+}
+
+fn parse_tier(s: Option<&String>) -> Tier {
+    let t = s.cloned().or_else(|| std::env::var("VERIF_TIER").ok()).unwrap_or_else(|| "quick".into());
+    match t.as_str() {
+        "thorough" => Tier::Thorough,
+        _ => Tier::Quick,
+    }
+}
+
 fn main() {
-    let t = std::time::Instant::now();
-    match refmodel::selftest() {
-        Ok(()) => println!("selftest ok in {:?}", t.elapsed()),
-        Err(e) => { println!("SELFTEST FAILED: {e}"); std::process::exit(2) }
+    simrng::install_panic_hook();
+    let args: Vec<String> = std::env::args().collect();
+    let code = match args.get(1).map(|s| s.as_str()) {
+        Some("selftest") => match refmodel::selftest() {
+            Ok(()) => {
+                println!("reference self-tests ok");
+                0
+            }
+            Err(e) => {
+                println!("HARNESS ERROR: reference self-test failed: {e}");
+                2
+            }
+        },
+        Some("replay") => match args.get(2) {
+            Some(p) => runner::replay_file(Path::new(p)),
+            None => 2,
+        },
+        Some("check") => cmd_check(&args),
+        Some("digest") => cmd_digest(&args),
+        Some("journal-run") => cmd_journal_run(&args),
+        _ => {
+            eprintln!("usage: gmsim check <ID> <quick|thorough> | replay <file> | selftest | digest <ID> <tier>");
+            2
+        }
+    };
+    std::process::exit(code);
+}
+
+fn cmd_digest(args: &[String]) -> i32 {
+    let id = match args.get(2) {
+        Some(s) => s.clone(),
+        None => return 2,
+    };
+    let tier = parse_tier(args.get(3));
+    let serial = args.iter().any(|a| a == "--serial");
+    let def = match props::lookup(&id) {
+        Some(d) => d,
+        None => return 2,
+    };
+    let runs = args.iter().position(|a| a == "--runs").and_then(|i| args.get(i + 1)).and_then(|s| s.parse().ok()).unwrap_or((def.runs)(tier));
+    let m = runner::run_all(def.run, seed_from_env(), &id, tier, runs, serial);
+    println!("{} runs={} worlds={} ops={}", m.digest, m.runs, m.worlds, m.ops);
+    0
+}
+
+fn cmd_journal_run(args: &[String]) -> i32 {
+    if args.len() < 7 {
+        return 2;
+    }
+    let def = match props::lookup(&args[2]) {
+        Some(d) => d,
+        None => return 2,
+    };
+    let tier = parse_tier(args.get(3));
+    let seed: u64 = args[4].parse().unwrap_or(runner::DEFAULT_SEED);
+    let run: usize = args[5].parse().unwrap_or(0);
+    runner::set_journal(Some(PathBuf::from(&args[6])));
+    let _ = runner::run_one(def.run, seed, &args[2], tier, run);
+    0
+}
+
+fn cmd_check(args: &[String]) -> i32 {
+    let id = match args.get(2) {
+        Some(s) => s.clone(),
+        None => return 2,
+    };
+    let tier = parse_tier(args.get(3));
+    let seed = seed_from_env();
+    let def = match props::lookup(&id) {
+        Some(d) => d,
+        None => {
+            eprintln!("no check for property {id}");
+            return 2;
+        }
+    };
+    let t0 = Instant::now();
+    if let Err(e) = refmodel::selftest() {
+        println!("HARNESS ERROR: reference self-test failed: {e}");
+        return 2;
+    }
+    let vdir = verif_dir();
+    let replay_dir = vdir.join("replays");
+    let journal_all = args.iter().any(|a| a == "--journal-all");
+    if journal_all {
+        std::fs::create_dir_all(&replay_dir).ok();
+        runner::set_journal(Some(replay_dir.join(format!("{id}-{seed}-inflight.json"))));
+    }
+    {
+        let id2 = id.clone();
+        let rd = replay_dir.clone();
+        runner::spawn_watchdog(move |run| {
+            // a real (non-RNG) hang: reproduce that single run in a child with the journal on,
+            // let it hang again, and hand the journalled in-flight schedule out as the replay
+            std::fs::create_dir_all(&rd).ok();
+            let file = rd.join(format!("{id2}-{seed}-{run}-timeout.json"));
+            let exe = std::env::current_exe().unwrap();
+            if let Ok(mut child) = std::process::Command::new(exe)
+                .args(["journal-run", &id2, tier.name(), &seed.to_string(), &run.to_string(), file.to_str().unwrap()])
+                .spawn()
+            {
+                std::thread::sleep(std::time::Duration::from_secs(runner::HANG_SECS + 5));
+                let _ = child.kill();
+            }
+            println!("VIOLATION property={id2} replay={} outcome=timeout", file.display());
+        });
+    }
+    let runs = (def.runs)(tier);
+    println!("gmsim: property={id} tier={} seed={seed} runs={runs} tree={}", tier.name(), runner::tree_rev());
+    let m = runner::run_all(def.run, seed, &id, tier, runs, journal_all);
+    let sim_wall = t0.elapsed().as_secs_f64();
+
+    if m.stats.get("harness.invalid-schedule").copied().unwrap_or(0) > 0 {
+        println!("HARNESS ERROR: a scheduler produced a malformed schedule: {}", m.samples.iter().find(|s| s.get("invalid").is_some()).map(|s| s.to_string()).unwrap_or_default());
+        return 2;
+    }
+
+    let known = Known::load(&vdir.join("known_findings.jsonl"));
+    let mut other: BTreeMap<String, u64> = BTreeMap::new();
+    let mut known_hit: BTreeMap<String, u64> = BTreeMap::new();
+    let mut groups: BTreeMap<String, Vec<Found>> = BTreeMap::new();
+    for f in &m.found {
+        if f.v.property != id {
+            continue;
+        }
+        if let Some(k) = known.matches(&f.v) {
+            let what = k.get("what").and_then(|w| w.as_str()).unwrap_or("").to_string();
+            *known_hit.entry(what).or_insert(0) += 1;
+        } else {
+            groups.entry(format!("{}|{}", f.v.oracle, f.v.key)).or_default().push(f.clone());
+        }
+    }
+    for (k, c) in &m.viol_counts {
+        let prop = k.split('|').next().unwrap_or("");
+        if prop != id {
+            *other.entry(k.clone()).or_insert(0) += c;
+        }
+    }
+    for (what, n) in &known_hit {
+        println!("KNOWN-FINDING: property={id} {what} (seen {n}x)");
+    }
+    let mut n_viol = 0;
+    let mut harness_err = false;
+    for (gi, (_, fs)) in groups.iter().enumerate() {
+        n_viol += 1;
+        if gi >= 8 {
+            continue; // enough replay files; the count is still reported
+        }
+        let f = &fs[0];
+        let (min_sched, tries) = runner::minimise(&f.schedule, &id, &f.v.oracle, 300);
+        let path = runner::write_replay(&replay_dir, &id, seed, tier, f, &min_sched, true, gi);
+        // confirm in a fresh process
+        let exe = std::env::current_exe().unwrap();
+        let out = std::process::Command::new(exe).arg("replay").arg(&path).output();
+        let ok = out.as_ref().map(|o| o.status.code() == Some(1)).unwrap_or(false);
+        if !ok {
+            println!("HARNESS ERROR: replay of {} did not reproduce the violation in a fresh process", path.display());
+            harness_err = true;
+        }
+        println!("  oracle={} step-count={} (minimised from {} ops in {} re-executions): {}", f.v.oracle, min_sched.len(), f.schedule.len(), tries, f.v.detail);
+        println!("VIOLATION property={id} replay={}", path.display());
+    }
+
+    // evidence
+    let evals: u64 = m.stats.iter().filter(|(k, _)| k.starts_with(&format!("oracle.{id}."))).map(|(_, v)| *v).sum();
+    let distinct = m.cases.get(&id).map(|s| s.len()).unwrap_or(0);
+    let sub = |pfx: &str| -> Value {
+        let mut o = serde_json::Map::new();
+        for (k, v) in &m.stats {
+            if let Some(r) = k.strip_prefix(pfx) {
+                o.insert(r.to_string(), json!(v));
+            }
+        }
+        Value::Object(o)
+    };
+    let wall = t0.elapsed().as_secs_f64();
+    let ev = json!({
+        "property_id": id,
+        "tier": tier.name(),
+        "seed": seed,
+        "level": def.level,
+        "coverage": {
+            "evaluations": evals,
+            "distinct_nontrivial": distinct,
+            "rule": def.rule,
+            "samples": m.samples,
+            "exhaustive": false,
+            "exhaustive_per_sample": def.exhaustive_per_sample,
+            "runs": m.runs,
+            "seeds": format!("run i uses mix(VERIF_SEED={seed}, property, tier, i), i in 0..{}", m.runs),
+            "worlds": m.worlds,
+            "events_simulated_time": m.ops,
+            "simulated_time_note": "gm-rs has no clock; simulated time is the global event (op) count",
+            "runs_per_hour": if sim_wall > 0.0 { (m.runs as f64 / sim_wall * 3600.0) as u64 } else { 0 },
+            "run_digest": m.digest,
+            "oracle_evaluations": sub(&format!("oracle.{id}.")),
+            "faults_fired": sub("fault."),
+            "faults_without_effect": sub("fault-noop."),
+            "rng_faults": sub("rngfault."),
+            "probes": sub("probe."),
+            "calls_by_entry": sub("call."),
+            "ops": sub("op."),
+            "histories": sub("history."),
+            "real_vs_stub": {
+                "real": ["gm-sm2", "gm-sm3", "gm-sm4", "gm-sm9", "gm-zuc (all five crates, built from /repo's working tree with --cfg gm_rs_verif)"],
+                "simulated": ["random byte source (scripted candidates through the RNG seam)", "transport / storage of every byte string between two library calls", "peer implementations where the reference party plays (sm2/sm3/sm9/zuc reference models)"],
+                "not_present_in_gm_rs": ["clock", "disk", "network sockets", "threads"]
+            },
+            "other_property_observations": other,
+            "known_findings_hit": known_hit,
+        },
+        "assumptions": def.assumptions,
+        "wall_s": wall,
+        "violations": n_viol,
+    });
+    let evdir = vdir.join("evidence");
+    std::fs::create_dir_all(&evdir).ok();
+    std::fs::write(evdir.join(format!("{id}.json")), serde_json::to_string_pretty(&ev).unwrap()).expect("write evidence");
+    println!(
+        "gmsim: {id} {}: runs={} worlds={} events={} oracle-evaluations={} distinct-cases={} violations={} known={} wall={:.1}s digest={}",
+        tier.name(), m.runs, m.worlds, m.ops, evals, distinct, n_viol, known_hit.len(), wall, &m.digest[..16]
+    );
+    if harness_err {
+        return 2;
+    }
+    if n_viol > 0 {
+        1
+    } else {
+        0
     }
 }
